@@ -164,8 +164,9 @@ def fmtV (m : Vmfmm Float) : String := fmtT m.weight ++ " | " ++ fmtT m.mean ++ 
 def fmtW (m : Cwmm Float CF) : String := fmtT m.weight ++ " | " ++ fmtTC m.mode ++ " | " ++ fmtT m.conc
 def fmtC (m : Cacgmm Float CF) : String := fmtT m.weight ++ " | " ++ fmtTC m.vecs ++ " | " ++ fmtT m.vals
 
-/-- `VMFMMTrainer.fit` (`vmfmmTrainerFit`) with the state stored as data after every step; returns the model after
-`n + 1` iterations and its posterior `model.predict(y)` -/
+/-- `VMFMMTrainer.fit` (`vmfmmTrainerFit`) with the state stored as data after every pass of the loop (`materialize` is
+the identity on valid indices): the first M-step, then `n` times the loop body `vmfmmStep` of the model; returns the model
+after `n + 1` iterations and its posterior `model.predict(y)` -/
 def vmfmmRun (eps minC maxC : Float) (lnorm : Nat → Float → Float) (y init : T Float) (sal : Option (T Float)) (n : Nat) :
     Vmfmm Float × T Float := Id.run do
   let yn := materialize (unitNormReal tinyT y)
@@ -174,8 +175,7 @@ def vmfmmRun (eps minC maxC : Float) (lnorm : Nat → Float → Float) (y init :
     | some s => s
   let mut m := matV (vmfmmMStep tinyT eps minC maxC yn init s)
   for _ in [0:n] do
-    let aff := materialize (vmfmmPredict tinyT lnorm m yn)
-    m := matV (vmfmmMStep tinyT eps minC maxC yn aff s)
+    m := matV (vmfmmStep tinyT eps minC maxC lnorm yn s m)
   return (m, materialize (vmfmmPredict tinyT lnorm m y))
 
 /-- `CWMMTrainer.fit` (`cwmmTrainerFit`) step by step; also reports whether the hypothesis `GoodLead` of `cwmmFit_slices`
@@ -195,7 +195,7 @@ def cwmmRun (eps : Float) (kinv : Float → Float) (lnorm : Nat → Float → Fl
   for _ in [0:n] do
     let aff := materialize (cwmmPredict tinyT lnorm m yn)
     good := good && goodOf aff
-    m := matW (cwmmMStep eps eighJ kinv yn aff (some s))
+    m := matW (cwmmStep tinyT eps eighJ kinv lnorm yn (some s) m)
   return (m, materialize (cwmmPredict tinyT lnorm m y), good)
 
 /-- `CACGMMTrainer.fit` (`cacgmmTrainerFit`) step by step; returns the model after `n + 1` iterations and
@@ -206,6 +206,8 @@ def cacgmmRun (eps floor : Float) (herm : Bool) (clip : Option Float) (y : T CF)
   let aff0 := materialize (broadcastLead 2 (yn.rshape.drop 2) init)
   let mut m := matC (cacgmmMStep tinyT eps floor herm eighJ yn (const aff0.rshape 1) aff0 sal)
   for _ in [0:n] do
+    -- the body of `cacgmmStep` with its intermediate results stored (evaluating `cacgmmStep` as ONE functional tensor
+    -- recomputes the posterior for every read of the M-step: ~100x slower; the op "cacgmm-step" runs it as defined)
     let p := cacgmmPredict tinyT clip m yn
     let aff := materialize p.1
     let q := materialize p.2
@@ -302,6 +304,18 @@ def opsTensorEm (a : Array String) : Option String :=
     let (y, _) := parseTC a o
     let p := cacgmmPredict tinyT clip ⟨w, vecs, vals⟩ y
     some (fmtT p.1 ++ " | " ++ fmtT p.2)
+  | "cacgmm-step" =>
+    -- cacgmm-step hermitize hasSal hasClip clipEps eps floor W VECS(complex) VALS Y(complex, (..., D, N)) [SAL]
+    --   ->  weight | eigenvectors | eigenvalues        (`cacgmmStep` as defined: E-step then M-step, nothing stored)
+    let herm := tokNat a 1 == 1
+    let hasSal := tokNat a 2 == 1
+    let clip := if tokNat a 3 == 1 then some (tokFloat a 4) else none
+    let (w, o) := parseT a 7
+    let (vecs, o) := parseTC a o
+    let (vals, o) := parseT a o
+    let (y, o) := parseTC a o
+    let sal := if hasSal then some (parseT a o).1 else none
+    some (fmtC (cacgmmStep tinyT (tokFloat a 5) (tokFloat a 6) herm clip eighJ y sal ⟨w, vecs, vals⟩))
   | "cacgmm-fit" | "cacgmm-fit-direct" =>
     -- cacgmm-fit n hermitize hasSal hasClip clipEps eps floor Y(complex, (..., N, D)) INIT [SAL]
     --   ->  weight | eigenvectors | eigenvalues | posterior | quadratic_form     (posterior of `CACGMM.predict`)
